@@ -1,6 +1,6 @@
 #!/venv/bin/python
 """Refreshes the generated tables of DESIGN.md (between <!-- BEGIN:x --> / <!-- END:x --> markers):
-seeded changes (from seeded/*/meta.json) and measured coverage (from evidence/*.json)."""
+seeded changes (from seeded/*/meta.json) and measured coverage (from evidence/*.json = the quick commands, and evidence_thorough/*.json = copies of what the thorough commands wrote)."""
 import glob, json, os, re
 V = os.path.dirname(os.path.dirname(os.path.abspath(__file__)))
 
@@ -39,7 +39,8 @@ def seeded():
 
 def coverage():
     rows = ["| property | tier | runs | distinct non-trivial | sim steps | faults fired | undecided | known hits | runs/hour | wall s |", "|---|---|---|---|---|---|---|---|---|---|"]
-    for f in sorted(glob.glob(os.path.join(V, "evidence", "C*.json"))):
+    for f in sorted(glob.glob(os.path.join(V, "evidence", "C*.json")) + glob.glob(os.path.join(V, "evidence_thorough", "C*.json")),
+                    key=lambda x: (os.path.basename(x), x)):
         e = json.load(open(f))
         c = e["coverage"]
         rows.append(f"| {e['property_id']} | {e['tier']} | {c['evaluations']} | {c['distinct_nontrivial']} | {c['sim_steps']} | {sum(c['faults_fired'].values())} | {c['undecided']} | "
